@@ -152,7 +152,10 @@ class C14(Prop):
         qks = JointExcessFromEjk.get_excess_joint_distributions(M)
         obs["row_sums"] = [[nm, tab(qks[nm])] for nm in names]
         # the float path, straight from the extractor
-        M2 = JointExcessJointDegree({TN.NETWORK: G, TN.EDGE_NAMES: names}).get_ejks()
+        ext = JointExcessJointDegree({TN.NETWORK: G, TN.EDGE_NAMES: names})
+        if case.get("reverse_dict"):
+            ext.get_ejks()                   # half of the cases use the matrices of a second extraction of the same extractor
+        M2 = ext.get_ejks()
         q2 = JointExcessFromEjk.get_excess_joint_distributions(M2)
         E = {nm: sum(1 for e in case["edges"] if e[2] == nm) for nm in names}
         obs["row_sums_float_path"] = [[nm, sorted([list(k), rs(recover(v, 2 * max(1, E[nm])))] for k, v in q2[nm].items())]
